@@ -155,6 +155,41 @@ def full_buffer_scenarios():
     return out
 
 
+def burst_scenarios(seed, count, size):
+    """Bursts through the extension host: stored / deleted events are announced back to back (the hand-over to the hub runs on the
+    host's own goroutine and falls behind), nothing is compared until the burst is over; then every listener must have been handed
+    exactly the announced sequence.  Abstract steps in GenHub's vocabulary."""
+    out = []
+    for k in range(count):
+        rng = random.Random("%d/burst/%d" % (seed, k))
+        steps = [{"c": "join", "slot": 1, "kind": "mock", "filter": "", "broken": False, "armed": False},
+                 {"c": "join", "slot": 2, "kind": ["v2", "v1", "mock"][k % 3], "filter": "" if k % 3 == 2 else "b", "broken": False, "armed": False}]
+        nid, live, nb = 0, [], 0
+        for _ in range(size):
+            if live and rng.random() < 0.3:
+                mb, i = live.pop(rng.randrange(len(live)))
+                steps.append({"c": "delete", "mb": mb, "id": i, "gate": 0})
+            else:
+                nid += 1
+                mb = "b" if (rng.random() < 0.15 and nb < 40) else "a"
+                nb += mb == "b"
+                live.append((mb, nid))
+                steps.append({"c": "dispatch", "mb": mb, "id": nid, "gate": 0})
+        steps.append({"c": "release"})
+        out.append({"n": 1 + k % 3, "steps": steps, "_what": "burst"})
+    # the client goes away while its buffer is full, the hub is waiting for it AND the hub's own operation queue is full
+    # (further events wait in the extension host): Close() must return, the hub must go on, nobody else misses anything
+    for k, kind in enumerate(("v2", "v1")):
+        steps = [{"c": "join", "slot": 1, "kind": kind, "filter": "", "broken": False, "armed": False},
+                 {"c": "join", "slot": 2, "kind": "mock", "filter": "", "broken": False, "armed": False}]
+        steps += [{"c": "dispatch", "mb": "a", "id": i, "gate": 0} for i in range(1, BUF + 1 + 100 + 40)]
+        steps.append({"c": "disconnect", "slot": 1})
+        steps += [{"c": "dispatch", "mb": "a", "id": i, "gate": 0} for i in range(BUF + 141, BUF + 161)]
+        steps.append({"c": "release"})
+        out.append({"n": 2, "steps": steps, "_what": "burst-disconnect-all-full"})
+    return out
+
+
 # ----------------------------------------------------------------------------- validation (one verdict per behaviour)
 CHUNK_EVENTS = 50000
 
@@ -406,6 +441,11 @@ def c15(run, args):
     beh += behaviours_from(run, sched, "sched")
     beh += behaviours_from(run, sim, "sim")
     beh += behaviours_from(run, full, "full")
+    # (5b) bursts through the extension host (hundreds of events announced back to back, compared when the burst is over)
+    bursts = behaviours_from(run, burst_scenarios(run.seed, 6 if quick else 30, 400), "burst", ext=lambda i, b: True)
+    for b in bursts:
+        b["burst"] = True
+    beh += bursts
     pick = lambda xs: xs[len(xs) // 2]["steps"][:14] if xs else []
     run.cov["samples"] = [pick(hist), pick(live), pick(sched), pick(sim)]
     replay_and_validate(run, vh, beh, "c15")
